@@ -6,7 +6,7 @@ PROP = dict(
               "Shangrla.C14.mean_gt_half_iff_tally_nen", "Shangrla.C14.row_agree", "Shangrla.C14.nen_disagree_unlisted",
               "Shangrla.C14.file_readers", "Shangrla.C14.file_orders_agree",
               "Shangrla.C14.file_mean_gt_half_iff_tally"],
-    groups={"irvballot": (6500, 62000)},
+    groups={"irvballot": (12100, 73200)},
     assumptions=[
         "nen_agree / mean_gt_half_iff_tally_nen / file_*: every ranked candidate belongs to the contest's candidate list "
         "(the property's quantifier: rankings over the candidate set). Outside it the two sides differ "
